@@ -336,7 +336,8 @@ pub fn check_step(cfg: &SpecCfg, obs: &StepObs, focus: &Focus) -> (Vec<Finding>,
                     detail: format!("slot {}: {}", s, msg),
                 });
             }
-            if let Some(ann) = &exp.mode_announce {
+            let mode_in_focus = focus.relay_verbs.as_ref().map_or(true, |v| v.iter().any(|x| x.eq_ignore_ascii_case("MODE")));
+            if let (Some(ann), true) = (&exp.mode_announce, mode_in_focus) {
                 if let Err(msg) = check_mode_announce(ann, &mode_lines, ann_slots.contains(&s)) {
                     out.push(Finding {
                         sig: format!("{}:announce", verb),
